@@ -1,1 +1,38 @@
-// harness module (child of the mirrored module)
+// Contract and proof harness for the default `AxelarExecutableInterface::validate_message`
+// (contracts/axelar-gateway/src/executable.rs), on a minimal application that uses the default.
+use super::*;
+use soroban_sdk::shim::{self, inst, pers, temp, Wordy, Words};
+use soroban_sdk::BytesN;
+
+pub struct MinimalApp;
+static mut APP_GATEWAY: u64 = 0;
+impl AxelarExecutableInterface for MinimalApp {
+    fn gateway(_env: &Env) -> Address {
+        Address(unsafe { APP_GATEWAY })
+    }
+    fn execute(_env: Env, _source_chain: String, _message_id: String, _source_address: String, _payload: Bytes) {}
+}
+
+#[kani::proof]
+fn c16_default_validate_message() {
+    let env = Env::default();
+    let _h = shim::fresh_host();
+    let me = env.current_contract_address();
+    unsafe { APP_GATEWAY = kani::any() };
+    let gw = Address(unsafe { APP_GATEWAY });
+    let (sc, mid, sa) = (String::symbolic(), String::symbolic(), String::symbolic());
+    let payload = Bytes::symbolic();
+
+    let r = MinimalApp::validate_message(&env, &sc, &mid, &sa, &payload);
+
+    let ph: BytesN<32> = env.crypto().keccak256(&payload).into();
+    assert!(
+        shim::n_calls() == 1 && shim::call_is(0, &gw, "validate_message", &(me.clone(), sc.clone(), mid.clone(), sa.clone(), ph)),
+        "OBL C16.default_asks_gateway: exactly one gateway.validate_message(this app, same source chain, message id, source address, keccak256(delivered payload))"
+    );
+    assert!(r.is_ok() == shim::call_ret::<bool>(0), "OBL C16.default_ok_iff_consumed: Ok exactly when the gateway consumed an approval");
+    assert!(matches!(r, Ok(()) | Err(ExecutableError::NotApproved)), "OBL C16.default_err_code");
+    assert!(inst().n_changed() == 0 && pers().n_changed() == 0 && temp().n_changed() == 0 && shim::n_events() == 0, "OBL C16.default_frame");
+    kani::cover!(r.is_ok(), "COVER default validate ok");
+    kani::cover!(r.is_err(), "COVER default validate err");
+}
